@@ -1,6 +1,7 @@
 package node
 
 import (
+	"math/big"
 	"context"
 	"time"
 
@@ -80,10 +81,15 @@ func VerifSyncBlock() {
 	// first block with rates (heights after the transaction activation only)
 	converter := vrt.KeyAddress(0, false)
 	var heldHash *factom.Bytes32
+	heldSrc := fat2.PTickerUSD
 	if height-1 > specTxActivation {
 		txh, _ := db.Begin()
-		vrtSetBalance(txh, converter, fat2.PTickerUSD, 5000)
-		he := vrtSignedConversion(vrtHash(0x4C), blockTime.Unix()-600, 1000, fat2.PTickerUSD, fat2.PTickerXBT, false)
+		// its source is pUSD or PEG (the asset the staking and payout code handles apart)
+		if vrt.Choose("heldSourceIsPEG", 2) == 1 {
+			heldSrc = fat2.PTickerPEG
+		}
+		vrtSetBalance(txh, converter, heldSrc, 5000)
+		he := vrtSignedConversion(vrtHash(0x4C), blockTime.Unix()-600, 1000, heldSrc, fat2.PTickerXBT, false)
 		if err := d.ApplyTransactionBlock(txh, vrtEBlock(height-1, blockTime.Unix()-600, []factom.Entry{he})); err != nil {
 			panic("held conversion: " + err.Error())
 		}
@@ -285,10 +291,30 @@ func VerifSyncBlock() {
 	// ---- the holding pass runs iff the block recorded rates
 	if heldHash != nil {
 		_, st := vrtStatus(tx, heldHash)
-		usd := uint64(vrtBalance(tx, converter, fat2.PTickerUSD))
+		usd := uint64(vrtBalance(tx, converter, heldSrc))
 		if hasRates {
 			vrt.Cover("held-conversion-considered")
-			vrt.Assert("C07.held-conversion-is-considered-in-the-first-block-with-rates", st != 0)
+			// the rates this block recorded for the two assets of the conversion
+			var rs, rd int64
+			if qerr := tx.QueryRow(`SELECT IFNULL(MAX(CASE WHEN token = ? THEN value ELSE 0 END), 0), IFNULL(MAX(CASE WHEN token = 'pXBT' THEN value ELSE 0 END), 0) FROM pn_rate WHERE height = ?`, heldSrc.String(), height).Scan(&rs, &rd); qerr != nil {
+				panic(qerr)
+			}
+			// a conversion whose result does not fit 63 bits is dropped and stays pending (D11, treated
+			// as specified behaviour): possible here only for a PEG source in the equation-priced phase
+			computable := true
+			if rs > 0 && rd > 0 {
+				out := new(big.Int).Mul(big.NewInt(1000), big.NewInt(rs))
+				out.Div(out, big.NewInt(rd))
+				computable = out.Cmp(new(big.Int).Lsh(big.NewInt(1), 62)) < 0
+			}
+			if computable {
+				vrt.Assert("C07.held-conversion-is-considered-in-the-first-block-with-rates", st != 0)
+			}
+			// and it executes at the rates this block recorded: with both of its assets priced in the
+			// block's own rate rows it is paid here (before PIP-10, where no average is involved)
+			if rs > 0 && rd > 0 && computable && height < specPIP10 {
+				vrt.Assert("C07.held-conversion-executes-at-the-rates-its-block-recorded", st == int64(height) && usd == 4000)
+			}
 		} else {
 			vrt.Cover("held-conversion-waits")
 			vrt.Assert("C12.block-without-rates-executes-no-pending-conversion", st == 0 && usd == 5000)
